@@ -600,7 +600,8 @@ impl<K: EnrKey> Enr<K> {
         match ip {
             IpAddr::V4(addr) => {
                 let prev_value = self.insert(IP_ENR_KEY, &addr.octets().as_ref(), key)?;
-                if let Some(bytes) = prev_value {
+                // the previous value is RLP encoded
+                if let Some(Ok(bytes)) = prev_value.map(|v| Bytes::decode(&mut v.as_ref())) {
                     if bytes.len() == 4 {
                         let mut v = [0_u8; 4];
                         v.copy_from_slice(&bytes);
@@ -610,7 +611,8 @@ impl<K: EnrKey> Enr<K> {
             }
             IpAddr::V6(addr) => {
                 let prev_value = self.insert(IP6_ENR_KEY, &addr.octets().as_ref(), key)?;
-                if let Some(bytes) = prev_value {
+                // the previous value is RLP encoded
+                if let Some(Ok(bytes)) = prev_value.map(|v| Bytes::decode(&mut v.as_ref())) {
                     if bytes.len() == 16 {
                         let mut v = [0_u8; 16];
                         v.copy_from_slice(&bytes);
